@@ -1,7 +1,7 @@
 from ast import Attribute, Subscript, Load, NodeVisitor
 
 from .compat import PY2
-from .scope import FuncScope, Flow, SourceScope, ClassScope
+from .scope import FuncScope, Flow, SourceScope, ClassScope, get_first_body_node_loc
 from .name import AssignedName, ImportedName
 from .util import (np, get_expr_end, get_indexes_for_target, visitor, get_any_marked_name,
                    insert_loc)
@@ -118,9 +118,10 @@ class extract_visitor(NodeVisitor):
         cur = self.flow
 
         body_start = self.make_flow('for', [cur])
+        body_loc = get_first_body_node_loc(node.body) or np(node.body[0])
         for nn, _idx in get_indexes_for_target(node.target, [], []):
             name = nn  # type: ast.Name # type: ignore[assignment]
-            body_start.add_name(AssignedName(name.id, np(node.body[0]), np(name), node.iter))
+            body_start.add_name(AssignedName(name.id, body_loc, np(name), node.iter))
         body = self.visit_in_flow(node.body, body_start)
         body_start.loop(body)
 
@@ -188,10 +189,11 @@ class extract_visitor(NodeVisitor):
         for h in node.handlers:
             fh = self.make_flow('except', [cur, body])
             if h.name:
+                body_loc = get_first_body_node_loc(h.body) or np(h.body[0])
                 if PY2:
-                    fh.add_name(AssignedName(h.name.id, np(h.body[0]), np(h), h.type))
+                    fh.add_name(AssignedName(h.name.id, body_loc, np(h), h.type))
                 else:
-                    fh.add_name(AssignedName(h.name, np(h.body[0]), np(h), h.type))  # type: ignore[arg-type]
+                    fh.add_name(AssignedName(h.name, body_loc, np(h), h.type))  # type: ignore[arg-type]
             if h.type:
                 self.visit_in_flow(h.type, fh)
             handlers.append(self.visit_in_flow(h.body, fh))
